@@ -220,11 +220,12 @@ def _term(term, z):
 def objective_value(task_spec, z):
     """Raw value the user's objective returns for features z: a float, or a list for multi-objective."""
     terms = task_spec["objective"]["terms"]
+    sgn = -1.0 if task_spec["objective"].get("negate") else 1.0
     if task_spec["objective"].get("force_scalar"):
-        return _term(terms[0], z)
+        return sgn * _term(terms[0], z)
     if task_spec.get("weights") is None and len(terms) == 1 and not task_spec["objective"].get("as_list"):
-        return _term(terms[0], z)
-    return [_term(t, z) for t in terms]
+        return sgn * _term(terms[0], z)
+    return [sgn * _term(t, z) for t in terms]
 
 
 def scalar_cost(task_spec, raw):
